@@ -19,12 +19,52 @@ def _clamp(v):
 
 
 class RelBounds:
-    def __init__(self, fn, is_len, entry=None):
-        """is_len(node) -> True when the (stripped) expression denotes the length L."""
+    def __init__(self, fn, is_len, entry=None, is_base=None):
+        """is_len(node) -> True when the (stripped) expression denotes the length L.
+        is_base(node) -> True when the expression denotes the start of the array the indices refer to (optional): pointer
+        locals derived from it (`it = begin() + k`, `++it`) are then tracked by their offset, `base + L` (an end()
+        accessor) is the length, and `it != end()` refines like `i != L`."""
         self.fn = fn
-        self.is_len = is_len
+        self._is_len = is_len
+        self.is_base = is_base
         self.at = {}          # element id -> state dict (a copy) just before the element
         self.entry = entry or {}
+        self.ptrvars = set()
+        if is_base is not None:
+            grew = True
+            while grew:
+                grew = False
+                for n in fn.all_nodes():
+                    if n.kind == "DeclStmt":
+                        for d in n.get("decls", []):
+                            if "init" in d and d["d"] not in self.ptrvars and self._ptr_expr(fn.node(d["init"])):
+                                self.ptrvars.add(d["d"])
+                                grew = True
+
+    def _is_end(self, n):
+        if self.is_base is None:
+            return False
+        n = std_unwrap(n)
+        if n.kind == "BinaryOperator" and n.op == "+":
+            a, b = n.children
+            return (self.is_base(a) and self._is_len(std_unwrap(b))) or (self.is_base(b) and self._is_len(std_unwrap(a)))
+        return False
+
+    def is_len(self, n):
+        return bool(self._is_len(n)) or self._is_end(n)
+
+    def _ptr_expr(self, n, depth=0):
+        """pointer expression whose offset from the base is tracked"""
+        if self.is_base is None or depth > 6:
+            return False
+        n = std_unwrap(n)
+        if self.is_base(n) or self._is_end(n):
+            return True
+        if n.kind == "BinaryOperator" and n.op in ("+", "-") and (n.get("t") or "").rstrip().endswith("*"):
+            return self._ptr_expr(n.children[0], depth + 1) or (n.op == "+" and self._ptr_expr(n.children[1], depth + 1))
+        if n.kind == "DeclRefExpr" and n.get("local") and n.d["d"] in self.ptrvars:
+            return True
+        return False
 
     # ---- expressions ----------------------------------------------------------------------------------
     def unsigned(self, n):
@@ -34,6 +74,14 @@ class RelBounds:
         n = std_unwrap(n)
         if self.is_len(n):
             return (0, 0)
+        if self.is_base is not None:
+            if self.is_base(n):
+                return (0, 0)
+            if n.kind == "BinaryOperator" and n.op == "+" and (n.get("t") or "").rstrip().endswith("*"):
+                a, b = n.children
+                for p_, k_ in ((a, b), (b, a)):
+                    if self.is_base(std_unwrap(p_)):
+                        return self.bounds(k_, st)          # base + k has offset k
         c = n.cv() if n.kind not in ("DeclRefExpr", "MemberExpr") else None
         if c is not None:
             return (c, c if c <= 0 else INF)
@@ -70,6 +118,8 @@ class RelBounds:
         n = n.strip()
         if n.kind == "DeclRefExpr" and n.get("local") and n.get("dk") in ("Var", "ParmVar") and n.d["d"] not in self.fn.bind_map():
             t = n.get("t") or ""
+            if t.endswith("*") and n.d["d"] in self.ptrvars:
+                return n.d["d"]
             if t.endswith("*") or t.endswith("&"):
                 return None
             return n.d["d"]
@@ -82,7 +132,7 @@ class RelBounds:
                 if "init" in d:
                     init = self.fn.node(d["init"])
                     t = init.get("t") or ""
-                    if init.get("bits") and not t.endswith("*"):
+                    if (init.get("bits") and not t.endswith("*")) or d["d"] in self.ptrvars:
                         st = dict(st)
                         st[d["d"]] = self.bounds(init, st)
                 elif d["d"] in st:
@@ -177,6 +227,10 @@ class RelBounds:
                 if vb is not None:
                     st[vb] = (max(ba[0], bb[0]), min(ba[1], bb[1]))
             elif op == "!=":
+                # x != L with x <= L known: x <= L - 1
+                for v_, mine, other_node in ((va, ba, b), (vb, bb, a)):
+                    if v_ is not None and self.is_len(std_unwrap(other_node)) and mine[1] <= 0:
+                        st[v_] = (mine[0], min(mine[1], -1))
                 for v_, mine, other in ((va, ba, bb), (vb, bb, ba)):
                     if v_ is not None and other[0] == 0 and other[1] == 0 and not self.is_len(std_unwrap(b if v_ == va else a)) and mine[0] == 0:
                         st[v_] = (1, mine[1])
